@@ -44,6 +44,8 @@ static inline struct vs_str vs_str_concat(const struct vs_str *a, const struct v
     return r;
 }
 static inline struct vs_str *vs_str_assign(struct vs_str *d, const struct vs_str *s) { *d = vs_str_copy(s); return d; }
+/* a += b / a.append(b) */
+static inline struct vs_str *vs_str_append(struct vs_str *a, const struct vs_str *b) { struct vs_str r = vs_str_concat(a, b); *a = r; return a; }
 /* std::string(): storage for growth is reserved up front (ghost capacity; a run whose capacity turns out too small is not a run) */
 size_t vs_cap;
 static inline struct vs_str vs_str_ctor_empty(void)
@@ -121,6 +123,8 @@ STUBS = {
     'std::string::find_first_of/1': 'vs_find_first_of', 'std::string::find_last_of/1': 'vs_find_last_of',
     'operator=|std::string,std::string': 'vs_str_assign',
     'operator+|std::string,std::string': 'vs_str_concat',
+    # other spellings of building the credentials text
+    'operator+=|std::string,std::string': 'vs_str_append', 'std::string::append/1': 'vs_str_append', 'std::string::empty': 'vs_str_empty',
     'ctor:Base64Decoder/1': 'vs_decoder_ctor', 'Base64Decoder::Decode': 'vs_decoder_decode',
     'Base64Encoder::EncodeString': 'vs_encode_string', 'EncodeString': 'vs_encode_string',
     'var:npos': 'VS_NPOS',
